@@ -8,6 +8,7 @@ and wants and both settings of IgnoreOperationID, with `HasResult` (the comparis
 rests on `cmp.Equal`) as the model's `Chk.hasResult`, the code passes exactly when the model does.
 -/
 import Gribi.Gen.HasResultsCache
+import Gribi.Gen.HasResult
 import Gribi.Model.Chk
 namespace Gribi.GenEquiv.ChkCache
 open Gribi Gribi.Gen
@@ -264,6 +265,124 @@ theorem gen_hasResultsCache (res wants : List COpResult) (o : Chk.Opts) :
       · simp only [Chk.dkey, absD, h1, ne_eq, not_false_eq_true, if_true]
         exact hfind selNHG d.NextHopGroupID (.nhg d.NextHopGroupID) (fun r => (hs r).1 _)
 
-theorem gen_chkcache_translated : Gen.hasResultsCache_problem = none := rfl
+
+/-! ### `HasResult` -/
+
+/-- `cmp.Equal(r, want, IgnoreFields(OpResult{}, ignore...), protocmp.Transform())`: field-wise
+equality of the two results outside the ignored fields; a nil result equals only nil -/
+def cmpEq (r w : Option COpResult) (ignore : List String) : Bool :=
+  match r, w with
+  | some r, some w =>
+    (ignore.contains "Timestamp" || r.Timestamp == w.Timestamp) && (ignore.contains "Latency" || r.Latency == w.Latency) &&
+    (ignore.contains "CurrentServerElectionID" || r.CurrentServerElectionID == w.CurrentServerElectionID) &&
+    (ignore.contains "SessionParameters" || r.SessionParameters == w.SessionParameters) &&
+    (ignore.contains "OperationID" || r.OperationID == w.OperationID) &&
+    (ignore.contains "ClientError" || r.ClientError == w.ClientError) &&
+    (ignore.contains "ServerError" || r.ServerError == w.ServerError) &&
+    (ignore.contains "ProgrammingResult" || r.ProgrammingResult == w.ProgrammingResult) &&
+    (ignore.contains "Details" || r.Details == w.Details)
+  | none, none => true
+  | _, _ => false
+
+theorem found_any (p : Option COpResult → Bool) (l : List (Option COpResult)) :
+    l.foldl (fun acc r => if p r = true then true else acc) false = l.any p := by
+  have : ∀ (acc : Bool), l.foldl (fun acc r => if p r = true then true else acc) acc = (acc || l.any p) := by
+    induction l with
+    | nil => intro acc; simp
+    | cons x t ih =>
+      intro acc
+      simp only [List.foldl_cons, ih, List.any_cons]
+      cases p x <;> cases acc <;> simp
+  simpa using this false
+
+theorem absD_inj (a b : OpDetailsResults) : absD a = absD b ↔ a = b := by
+  cases a; cases b; simp [absD]
+
+theorem elec_inj (a b : Option U128) :
+    (a.map (fun u => (u.hi.toNat, u.lo.toNat)) = b.map (fun u => (u.hi.toNat, u.lo.toNat))) ↔ a = b := by
+  cases a with
+  | none => cases b <;> simp
+  | some x =>
+    cases b with
+    | none => simp
+    | some y =>
+      obtain ⟨xh, xl⟩ := x
+      obtain ⟨yh, yl⟩ := y
+      simp only [Option.map_some, Option.some.injEq, Prod.mk.injEq, U128.mk.injEq]
+      constructor
+      · rintro ⟨h1, h2⟩; exact ⟨UInt64.toNat_inj.mp h1, UInt64.toNat_inj.mp h2⟩
+      · rintro ⟨h1, h2⟩; exact ⟨by rw [h1], by rw [h2]⟩
+
+theorem params_inj (a b : Option SessionParametersResult) : (a.map (·.Status) = b.map (·.Status)) ↔ a = b := by
+  cases a with
+  | none => cases b <;> simp
+  | some x => cases b with
+    | none => simp
+    | some y => cases x; cases y; simp
+
+theorem details_inj (a b : Option OpDetailsResults) : (a.map absD = b.map absD) ↔ a = b := by
+  cases a with
+  | none => cases b <;> simp
+  | some x => cases b with
+    | none => simp
+    | some y => simp [absD_inj]
+
+/-- the comparison `HasResult` makes for one result, with the ignore list it builds from the want
+and the two options, is the model's `eqModulo` -/
+theorem cmpEq_eqModulo (r want : COpResult) (o : Chk.Opts) :
+    cmpEq (some r) (some want)
+      (["Timestamp", "Latency"] ++ (if want.Details.isNone then ["Details"] else []) ++
+        (if o.ignoreOpId then ["OperationID"] else []) ++ (if o.includeServerErr then [] else ["ServerError"])) =
+      Chk.eqModulo o (absR r) (absR want) := by
+  rw [Bool.eq_iff_iff]
+  obtain ⟨ig, inc⟩ := o
+  cases hd : want.Details <;> cases ig <;> cases inc <;>
+    simp [cmpEq, Chk.eqModulo, absR, hd, elec_inj, params_inj, details_inj, absD_inj] <;> (constructor <;> intro h <;> simp_all)
+
+
+/-- `HasResult` = the model's `Chk.hasResult`: with `cmp.Equal` read as field-wise equality outside
+the ignored fields, the helper passes exactly when some (non-nil) result equals the want under the
+model's `eqModulo` — Timestamp and Latency never compared, Details only when the want gives them,
+OperationID unless IgnoreOperationID, ServerError only with IncludeServerError -/
+theorem gen_hasResult (res : List (Option COpResult)) (want : COpResult) (o : Chk.Opts) :
+    Gen.hasResult res want o.ignoreOpId o.includeServerErr cmpEq =
+      Chk.hasResult (res.map (·.map absR)) (absR want) o := by
+  have hany : ∀ (ig : List String)
+      (hig : ig = ["Timestamp", "Latency"] ++ (if want.Details.isNone then ["Details"] else []) ++
+        (if o.ignoreOpId then ["OperationID"] else []) ++ (if o.includeServerErr then [] else ["ServerError"])),
+      res.any (fun r => cmpEq r (some want) ig) = Chk.hasResult (res.map (·.map absR)) (absR want) o := by
+    intro ig hig
+    unfold Chk.hasResult
+    rw [List.any_map]
+    congr 1
+    funext r
+    cases r with
+    | none => simp [cmpEq]
+    | some r => simp only [Function.comp, Option.map_some]; rw [hig, cmpEq_eqModulo]
+  unfold Gen.hasResult
+  obtain ⟨ig, inc⟩ := o
+  cases hd : want.Details <;> cases ig <;> cases inc <;>
+    simp only [Bool.false_eq_true, if_false, if_true] <;>
+    (rw [show ∀ (opts : List String), (res.foldl (fun acc r => if cmpEq r (some want) opts = true then true else acc) false) =
+        res.any (fun r => cmpEq r (some want) opts) from fun opts => found_any _ _]
+     rw [hany _ (by simp [hd])]
+     cases Chk.hasResult (res.map (·.map absR)) (absR want) _ <;> rfl)
+
+/-- the two together: `HasResultsCache` calling the generated `HasResult` (only `cmp.Equal` left
+as field-wise equality) = the model's `hasResultsCache` -/
+theorem gen_hasResultsCache_full (res wants : List COpResult) (o : Chk.Opts) :
+    Gen.hasResultsCache res wants o.ignoreOpId
+        (fun l w => match w with
+          | some w => Gen.hasResult l w o.ignoreOpId o.includeServerErr cmpEq
+          | none => false) =
+      Chk.hasResultsCache (res.map absR) (wants.map absR) o := by
+  rw [← gen_hasResultsCache]
+  congr 1
+  funext l w
+  cases w with
+  | none => rfl
+  | some w => simp [hrModel, gen_hasResult]
+
+theorem gen_chkcache_translated : Gen.hasResultsCache_problem = none ∧ Gen.hasResult_problem = none := ⟨rfl, rfl⟩
 
 end Gribi.GenEquiv.ChkCache
